@@ -61,9 +61,19 @@ def gate(dirs: list[str]) -> list[str]:
     return bad
 
 
-def run(cmd, cwd=None, timeout=1800):
+def _limit_memory(gb):
+    def f():
+        import resource
+        resource.setrlimit(resource.RLIMIT_AS, (gb << 30, gb << 30))
+    return f
+
+
+def run(cmd, cwd=None, timeout=1800, mem_gb=None):
+    """mem_gb: address-space cap for the child (case evaluations only: a model fed with observations of a
+    broken implementation can blow up; the evaluation then fails instead of exhausting the machine)."""
     try:
-        p = subprocess.run(cmd, cwd=cwd, capture_output=True, text=True, timeout=timeout)
+        p = subprocess.run(cmd, cwd=cwd, capture_output=True, text=True, timeout=timeout,
+                           preexec_fn=_limit_memory(mem_gb) if mem_gb else None)
         return p.returncode, p.stdout + p.stderr
     except subprocess.TimeoutExpired as e:
         return 124, f"TIMEOUT after {timeout}s: {cmd}\n{e.stdout or ''}"
@@ -217,7 +227,7 @@ def eval_cases(tag: str, imports: str, ok_fn: str, case_type: str, cases: list[s
         files.append(fn)
 
     def one(fn):
-        return run(["coqc", "-R", COQ, "HS", fn], cwd=d, timeout=timeout)
+        return run(["coqc", "-R", COQ, "HS", fn], cwd=d, timeout=timeout, mem_gb=12)
 
     bad, errors = [], []
     with ThreadPoolExecutor(max_workers=workers) as ex:
